@@ -40,6 +40,8 @@ type World struct {
 	Parties  map[int]*zbls.DKG
 	MinerIDs map[int]string
 	TShares  []encryption.ThresholdSignatureScheme
+	// MsgFn lets a harness give some message tokens other bytes than MsgBytes (e.g. the hash of a transaction).
+	MsgFn func(w *World, token string) ([]byte, bool)
 }
 
 func New() *World {
@@ -211,6 +213,11 @@ func (w *World) Step(ws []string) (out string, handled bool) {
 			return bad()
 		}
 		w.Msgs[ws[1]] = MsgBytes(ws[1])
+		if w.MsgFn != nil {
+			if b, ok := w.MsgFn(w, ws[1]); ok {
+				w.Msgs[ws[1]] = b
+			}
+		}
 		return "ok", true
 	case ws[0] == "rawmsg" && len(ws) == 3:
 		// a message that is signed as the literal string (the VRF message of a round)
@@ -399,7 +406,9 @@ func (w *World) Step(ws []string) (out string, handled bool) {
 		if e1 != nil || e2 != nil || t < 0 || n < 0 {
 			return bad()
 		}
+		fn := w.MsgFn
 		*w = *New()
+		w.MsgFn = fn
 		w.T, w.N = t, n
 		return "ok", true
 	case ws[0] == "party" && len(ws) == 4:
